@@ -42,9 +42,20 @@ for d in sorted(glob.glob(V + "/seeded/*/meta.json")):
     need = re.sub(r"\s+", " ", need if isinstance(need, str) else json.dumps(need))[:260]
     rows.append("| %s | %s | %s | %s |" % (name, mt.get("property"), need.replace("|", "/"), ("<br>".join(res) or "not yet run").replace("|", "/")))
 t103 = "\n".join(rows)
+
+kf = json.load(open(V + "/known_findings.json"))
+def fnum(e):
+    mm = re.match(r"F(\d+)", e.get("id", "F999")); return int(mm.group(1)) if mm else 999
+rows = ["| id | property | status | commit | what failed (replay quoted in known_findings.json) |", "|---|---|---|---|---|"]
+for e in sorted(kf, key=fnum):
+    txt = re.sub(r"^fixed: property=\S+ \S+ ", "", e["text"])
+    txt = re.sub(r"\s+", " ", txt).replace("|", "/")
+    if len(txt) > 330: txt = txt[:327] + "..."
+    rows.append("| %s | %s | %s | %s | %s |" % (e.get("id"), e["property"], e["kind"], e.get("commit") or "-", txt))
+t71 = "\n".join(rows)
 p = V + "/DESIGN.md"
 s = open(p).read()
-for tag, t in (("T102", t102), ("T103", t103)):
+for tag, t in (("T102", t102), ("T103", t103), ("T71", t71)):
     a, b = "<!-- BEGIN %s -->" % tag, "<!-- END %s -->" % tag
     if a in s:
         s = s[:s.index(a) + len(a)] + "\n" + t + "\n" + s[s.index(b):]
